@@ -273,8 +273,11 @@ pub fn check(prop: &str, tier: Tier, args: &[String]) -> i32 {
     let slow = timeouts.lock().unwrap().clone();
     let mut timeouts: Vec<u64> = Vec::new();
     let mut slow_runs = 0u64;
+    let mut abandoned = 0u64;
     for (k, (run_seed, scen)) in slow.iter().enumerate() {
-        if k >= 8 { timeouts.push(*run_seed); continue; }
+        // three are repeated; further slow runs are abandoned without a verdict (counted in the
+        // evidence): not finishing in time is neither a violation nor a malfunction
+        if k >= 3 { abandoned += 1; continue; }
         match run_scenario_child(scen, &format!("slow{k}"), run_timeout * 3) {
             ChildOut::Report(r) => { slow_runs += 1; add(&mut agg.lock().unwrap(), prop, *run_seed, scen, &r); }
             ChildOut::Abort(msg) => { let mut a = agg.lock().unwrap(); a.evaluations += 1; a.violations.push((scen.clone(), Violation { property: prop.to_string(), class: "process-abort".into(), detail: msg, step: None })); }
@@ -340,6 +343,7 @@ pub fn check(prop: &str, tier: Tier, args: &[String]) -> i32 {
             "observations_tagged_to_other_properties": agg.others,
             "timeouts": timeouts.len(),
             "slow_runs_repeated_alone": slow_runs,
+            "slow_runs_abandoned_without_verdict": abandoned,
             "regression_corpus": { "replayed": corpus_n, "unreadable": corpus_skipped, "source": "findings/*.json of this property" },
             "real_vs_stub": { "real": "all of nomt and nomt-core (beatree, bitbox, merkle, rollback, seglog, overlay, store, sync, recovery, page cache, IoKind::get_result, Fsyncer logic, flock)", "stub": "io_uring ring loop (replaced by a pread/pwrite worker under the scheduler); parking_lot, crossbeam(-channel), threadpool, thread_local (shims over shuttle's Mutex/Condvar/thread); O_DIRECT off (tmpfs)" },
         },
